@@ -53,6 +53,10 @@ CHECKS = {
    technique="deviation-bounded DFS over operation sequences of the real VirtIOBlk against a reference in-memory disk that decodes every chain; device status and completion order are explored choices; bouncing Hal",
    text="Every sequence (bounded depth) of read/write over five sector/length variants including 2^32 and 2^64-1, flush, device_id and the non-blocking interface with up to three requests outstanding and completed by the device in every order, under four feature sets and device statuses OK/IOERR/UNSUPP/0xff: each chain must be header(type, reserved 0, sector) + data in the right direction + a one-byte writable status; caller buffers and the reference disk must agree; each completion returns its own request's status and data (request/response objects are reused without reset); capacity/readonly/flush gating checked.",
    note="Trusts the reference block device (lab/src/c14.rs) written from virtio spec 5.2.6."),
+ "C15": dict(level="model_checking", design="DESIGN.md §4 C15",
+   technique="exhaustive DFS over interleavings of device chunk deliveries (including inside blocking reads through the busy-wait hook) and every public receive/transmit call of the real VirtIOConsole, against a reference console device feeding a known byte stream",
+   text="All interleavings up to the stated depth of device chunks of 1, 3 and 4096 bytes with recv(peek/pop), read(1|5), fill_buf+consume(0|1|all), read_ready, ack_interrupt, send and send_bytes: the concatenation of returned bytes must be a prefix of the device stream 1,2,3,..., peeks must not consume, at most one receive buffer is ever posted, it is re-posted only when every delivered byte has been handed to the caller, a blocking read never waits without a posted buffer, and transmit chains carry exactly the caller's bytes.",
+   note="Trusts the reference console device (lab/src/c15.rs)."),
 }
 
 NOT_YET = "check not built yet in this round (machinery under construction; see DESIGN.md)"
